@@ -273,6 +273,14 @@ impl Serialize for SystemTime {
         let before_epoch = bytes[12] == 0_u8;
         let secs = u64::from_le_bytes(secs_bytes);
         let nanos = u32::from_le_bytes(nanos_bytes);
+
+        if nanos >= 1_000_000_000 {
+            return Err(DbError::serialization(
+                DbErrorType::OutOfBounds,
+                format!("SystemTime deserialization error: {nanos} nanoseconds is out of range"),
+            ));
+        }
+
         let duration = Duration::new(secs, nanos);
 
         if before_epoch {
